@@ -443,3 +443,82 @@ def checks(tier):
                        "period disabled (known finding C10-gc-nograce-vs-push)", time_budget=2400,
                tiers=("quick", "thorough")),
     ]
+
+
+# ---------------------------------------------------------------------------------------------
+# (f) the grace period is judged on the real files: an unreachable object survives gc while ANY of its copies is young
+import os as _os
+import time as _time
+_b10f = checks
+_AGES = (None, 10, 30 * 86400)          # copy absent / written 10 s ago / written 30 days ago
+_GRACE = 86400
+
+
+def h_grace_copies(eng, op="gc"):
+    """an unreachable blob X stored as a loose file and/or in up to two packs, each copy absent, 10 s old or 30 days old
+    (real mtimes set with utime), next to a reachable commit; garbage_collect / prune_unreachable_objects with a one-day
+    grace period (real get_object_mtime, real clock): X may only disappear if every copy of it is older than the grace
+    period (a push or fetch whose pack landed seconds ago has not updated its ref yet - that is what the grace period is
+    for); everything reachable stays"""
+    from dulwich.objects import Blob, Tree, Commit
+    d = scratch("c10g")
+    r = Repo.init_bare(d)
+    try:
+        st = r.object_store
+        x = Blob.from_string(b"unreachable\n")
+        keep = Blob.from_string(b"kept\n")
+        t = Tree()
+        t.add(b"f", 0o100644, keep.id)
+        c = Commit()
+        c.tree = t.id
+        c.parents = []
+        c.author = c.committer = b"V <v@v>"
+        c.author_time = c.commit_time = 1
+        c.author_timezone = c.commit_timezone = 0
+        c.message = b"m"
+        for o in (keep, t, c):
+            st.add_object(o)
+        r.refs[b"refs/heads/main"] = c.id
+        ages = {k: _AGES[eng.choice(k, 3)] for k in ("loose", "pack1", "pack2")}
+        eng.assume(any(a is not None for a in ages.values()))
+        now = _time.time()
+        for i, k in enumerate(("pack1", "pack2")):
+            if ages[k] is not None:
+                known = {p._basename for p in st.packs}
+                st.add_objects([(x, None), (Blob.from_string(b"companion %d\n" % i), None)])
+                for p in st.packs:
+                    if p._basename not in known:
+                        for ext in (".pack", ".idx"):
+                            _os.utime(p._basename + ext, (now - ages[k], now - ages[k]))
+        if ages["loose"] is not None:
+            st.add_object(x)
+            _os.utime(st._get_shafile_path(x.id), (now - ages["loose"], now - ages["loose"]))
+        r.close()
+        r = Repo(d)
+        if op == "gc":
+            GC.garbage_collect(r, grace_period=_GRACE)
+        else:
+            GC.prune_unreachable_objects(r.object_store, r.refs, grace_period=_GRACE)
+        r.close()
+        r = Repo(d)
+        young = [k for k, a in ages.items() if a is not None and a < _GRACE]
+        if young:
+            eng.prove(x.id in r.object_store, f"unreachable object with a copy younger than the grace period ({young}: ages {ages}) "
+                                              f"survives {op}")
+        for o in (keep, t, c):
+            eng.prove(o.id in r.object_store and r.object_store[o.id].as_raw_string() == o.as_raw_string(), "reachable objects stay")
+    finally:
+        r.close()
+        shutil.rmtree(d, ignore_errors=True)
+
+
+def checks(tier):
+    q = ("quick", "thorough")
+    return _b10f(tier) + [
+        KCheck("C10f.grace_copies", h_grace_copies, parts=[{"op": "gc"}, {"op": "prune"}],
+               encoded=["dulwich.gc.garbage_collect", "dulwich.gc.prune_unreachable_objects",
+                        "dulwich.object_store.DiskObjectStore.get_object_mtime", "dulwich.object_store.PackBasedObjectStore.repack"],
+               bounds="an unreachable blob with a loose copy and copies in up to two packs, each copy absent / 10 s old / 30 days old "
+                      "(every combination, real file mtimes); one-day grace period; garbage_collect and prune_unreachable_objects",
+               outside="ages near the boundary (C10b decides the comparison itself on symbolic integers); alternates", tiers=q),
+    ]
